@@ -30,6 +30,8 @@ def specs(ctx):
     pts = list(range(0, 150, 2 if ctx.thorough() else 6))
     s += sysrun.specs_cancel(ctx, kinds, ['future'], pts)
     s += sysrun.specs_cancel(ctx, kinds[:2], ['shutdown', 'exit_exc', 'exit_kbi'], pts[::3])
+    # the request or the IO stage's pool refuses a task
+    s += sysrun.specs_submit_fault(ctx, kinds, seeds=1)
     return s
 
 
